@@ -214,6 +214,7 @@ const (
 	clsCombining
 	clsWS
 	clsNearWS
+	clsOddRune // WriteRune with runes that are not Unicode scalar values
 )
 
 var (
